@@ -300,6 +300,11 @@ pub struct Client {
 }
 
 impl Client {
+    /// a second handle on the socket (for a reader thread of the checker's own)
+    pub fn clone_stream(&self) -> Option<TcpStream> {
+        self.stream.as_ref().and_then(|s| s.try_clone().ok())
+    }
+
     pub fn send(&mut self, bytes: &[u8]) {
         if let Some(s) = self.stream.as_mut() {
             let mut off = 0;
